@@ -7,7 +7,6 @@ import (
 	"sort"
 
 	"github.com/mit-pdos/go-journal/vrt"
-	"github.com/mit-pdos/go-nfsd/nfs"
 	"verif/crash"
 	"verif/explore"
 	"verif/fsck"
@@ -118,7 +117,7 @@ func crashJob(raw json.RawMessage) (interface{}, error) {
 		}
 		return vrt.Run(vrt.Config{DaemonEager: a.Eager, KeepClock: true, Prefix: prefix, Points: pts}, func() {
 			w := &World{Disk: vdisk.New(img0), Vars: vars0.Clone(), Model: model0.Clone(), Unstable: !a.NoUnstable, Probe: probe}
-			w.Srv = nfs.MakeNfs(w.Disk)
+			w.Srv = mkNfs(w.Disk)
 			w.Srv.Unstable = w.Unstable
 			d = w.Disk
 			w.Mark = true
@@ -272,7 +271,7 @@ func crashJob(raw json.RawMessage) (interface{}, error) {
 				var d2 *vdisk.Disk
 				rres := vrt.Run(vrt.Config{KeepClock: true}, func() {
 					d2 = vdisk.New(im.Img)
-					srv := nfs.MakeNfs(d2)
+					srv := mkNfs(d2)
 					if pol == 1 {
 						vrt.Quiesce()
 					}
@@ -401,7 +400,7 @@ func crashJob(raw json.RawMessage) (interface{}, error) {
 						var ndump map[string]fsx.Node
 						var nerr error
 						nres := vrt.Run(vrt.Config{KeepClock: true}, func() {
-							srv := nfs.MakeNfs(vdisk.New(nim.Img))
+							srv := mkNfs(vdisk.New(nim.Img))
 							ndump, nerr = fsx.Dump(srv, probe)
 						})
 						out.Recoveries++
